@@ -41,6 +41,7 @@ def strategy(tier):
         'form': st.sampled_from(['list', 'list', 'dict', 'series',
                                  'series2']),
         'avoid_known': st.sampled_from([True] * 6 + [False]),
+        'zero_keys': G.zero_keys_strategy(),
     }).map(steer)
 
 
@@ -78,7 +79,7 @@ def valid(case):
     if form.startswith('series') and any(
             x is not None and '\x00' in x for x in case['examples']):
         return False
-    return True
+    return G.valid_zero_keys(case.get('zero_keys'))
 
 
 def has_nonascii_decimal(s):
